@@ -410,6 +410,23 @@ def r_pure(spec, data):
         ok = all(abs(a - b) < 1e-9 for a, b in zip(ph, want))
         print("phases after the repair:", ph, "expected", want, "ok" if ok else "VIOLATED")
         return not ok
+    if which == "denormalize_bounds":
+        # -1 -> min and +1 -> max for float, python-int and integer-array bounds
+        import jax.numpy as jnp
+        from rex.base import Denormalize
+        bad = False
+        for lo, hi in ((0.0, 5.0), (0, 5), (jnp.array(1), jnp.array(4)), (-2, 1)):
+            try:
+                T = Denormalize.init({"p": lo}, {"p": hi})
+            except Exception as e:
+                print(f"bounds [{lo}, {hi}]: init raised {type(e).__name__}: {e}")
+                bad = True
+                continue
+            a, b = float(T.apply({"p": -1.0})["p"]), float(T.apply({"p": 1.0})["p"])
+            ok = abs(a - float(lo)) < 1e-6 and abs(b - float(hi)) < 1e-6
+            print(f"bounds [{lo}, {hi}]: apply(-1) = {a}, apply(+1) = {b} {'ok' if ok else 'VIOLATED'}")
+            bad |= not ok
+        return bad
     if which == "reward_norm":
         import jax.numpy as jnp
         from rex.rl import NormalizeVecReward, NormalizeVec
